@@ -800,7 +800,6 @@ def make_pool(n: int):
 # ------------------------------------------------------------------------------------- judging
 CFG_ENUM = """SPECIFICATION Spec
 CONSTANTS Source = "enum"
-          MovedDocformat = "{moved}"
 CONSTRAINT EmitEnum
 INVARIANT {raw}
 INVARIANT {sink}
@@ -809,24 +808,11 @@ INVARIANT SameAsWalk
 """
 CFG_FILE = """SPECIFICATION Spec
 CONSTANTS Source = "file"
-          MovedDocformat = "{moved}"
 CONSTRAINT EmitFile
 """
-KF_MOVED = "moved-function-docstring-parsed-with-the-docformat-of-the-new-module"
 KF_MATH = "math-text-mode-copied-raw"
 # payloads compared with the model for `mathtext` (copied raw, markup turns into elements or XML errors)
 MODELLED_MATHTEXT = ("entities", "xmlbreak")
-
-
-def kf_moved_docformat(w: Dict[str, Any]) -> bool:
-    """Known finding: Documentable.reparent sets parentMod of the moved object itself, so the docstring of a re-exported
-    FUNCTION is parsed with the docformat of the module it is re-exported FROM ... TO (the new one) instead of the one it
-    is written in.  Matches ONLY violations of the source kind `reexport.plaintext` for which html2stan was observed on
-    level-0 text (the raw block of the plaintext docstring was read as a reST raw directive)."""
-    # ... and only on the page that shows the function (the package page): the class page must stay clean
-    return (w.get("kind") == "reexport.plaintext" and w.get("invariant") == "SkeletonEqual"
-            and w.get("page") in ("index.html", "zpkg.html")
-            and any(e[0] == "ParseXml" and e[1] == 0 for e in w.get("events", [])))
 
 
 def kf_math_text_raw(w: Dict[str, Any]) -> bool:
@@ -919,11 +905,10 @@ def jobs_for(scratch: Path, kind: str, variant: str, payload: str) -> Tuple[Dict
 def run(ctx: Ctx) -> int:
     rng = random.Random(ctx.seed)
     # ---- spec -> code: every (kind, sink) pair of Escape.tla
-    ctx.register_matcher(KF_MOVED, kf_moved_docformat)
     ctx.register_matcher(KF_MATH, kf_math_text_raw)
 
-    def enumerate_model(moved: str, count: bool = True):
-        rr = ctx.tlc("Escape", CFG_ENUM.format(moved=moved, raw="NeverParsedRawExceptKnown", sink="SinkLevelOneExceptKnown"), workers=4, check=True, coverage=ctx.quick and count, timeout=600, count=count)
+    def enumerate_model(count: bool = True):
+        rr = ctx.tlc("Escape", CFG_ENUM.format(raw="NeverParsedRawExceptKnown", sink="SinkLevelOneExceptKnown"), workers=4, check=True, coverage=ctx.quick and count, timeout=600, count=count)
         if not rr.printed:
             raise MachineryError("Escape.tla printed no (kind, sink) pair")
         if rr.violated:
@@ -937,8 +922,7 @@ def run(ctx: Ctx) -> int:
             m["pairs"].append(pr)
         return rr, mdl
 
-    moved = "new_module"           # the code as it is; the check uses the transcription the observations conform to
-    r, model = enumerate_model(moved)
+    r, model = enumerate_model()
     pairs = r.printed
     ctx.exhaustive = True
     unknown = sorted({k for k, _ in model} - set(KINDS))
@@ -1028,13 +1012,7 @@ def run(ctx: Ctx) -> int:
         return out
 
     twin = conform(model)
-    if any(d and any(d.values()) and o["kind"] == "reexport.plaintext" for d, o in zip(twin, observed_records) if o):
-        r_alt, model_alt = enumerate_model("defining_module", count=False)
-        twin_alt = conform(model_alt)
-        if sum(1 for d in twin_alt if d and any(d.values())) < sum(1 for d in twin if d and any(d.values())):
-            moved, model, twin, pairs = "defining_module", model_alt, twin_alt, r_alt.printed
-    ctx.extra["model_variant_followed_by_code"] = {"MovedDocformat": moved}
-    strict = ctx.tlc("Escape", CFG_ENUM.format(moved=moved, raw="NeverParsedRaw", sink="SinkLevelOne"), workers=1, timeout=600,
+    strict = ctx.tlc("Escape", CFG_ENUM.format(raw="NeverParsedRaw", sink="SinkLevelOne"), workers=1, timeout=600,
                      count=False, extra=["-continue"])
     ctx.extra["design_level_invariants_violated"] = sorted(set(strict.violated))
     for d, o in zip(twin, observed_records):
@@ -1060,7 +1038,7 @@ def run(ctx: Ctx) -> int:
     twin = [twin[i] for i in keep]
     f = ctx.scratch / "observed.json"
     f.write_text(json.dumps(observed_records))
-    r2 = ctx.tlc("Escape", CFG_FILE.format(moved=moved), workers=1, env={"C10_OBSERVED": str(f)}, check=True, timeout=600)
+    r2 = ctx.tlc("Escape", CFG_FILE, workers=1, env={"C10_OBSERVED": str(f)}, check=True, timeout=600)
     got = {x["n"]: x for x in r2.printed}
     if len(got) != len(observed_records):
         raise MachineryError(f"TLC judged {len(got)} of {len(observed_records)} observed flows")
@@ -1092,7 +1070,7 @@ def run(ctx: Ctx) -> int:
     broken[0]["sinks"][0][3] = 2
     broken[0]["events"].append(["ParseXml", 0, 0])
     f.write_text(json.dumps(broken))
-    r3 = ctx.tlc("Escape", CFG_FILE.format(moved=moved), workers=1, env={"C10_OBSERVED": str(f)}, check=True, count=False)
+    r3 = ctx.tlc("Escape", CFG_FILE, workers=1, env={"C10_OBSERVED": str(f)}, check=True, count=False)
     nc["tlc_rejects_corrupted_observation"] = (not r3.printed[0]["sinkLevelOne"]) and (not r3.printed[0]["neverParsedRaw"]) \
         and bool(r3.printed[0]["stepsNotInModel"])
     # a page in which the canary is written raw must be caught by the crawler (skeleton / well-formedness)
